@@ -109,7 +109,7 @@ def run(shard, rec):
             case = [shard['name'], 'fxp', pi, policy, sseed]
             if not rec.wants(case):
                 continue
-            w = sim.World(m, t, no_prss, seed=sseed, policy=policy).run(fxprogs.build(spec))
+            w = sim.World(m, t, no_prss, seed=sseed, policy=policy, history='auto').run(fxprogs.build(spec))
             rec.count('runs')
             rec.count('fxp_runs')
             early = sum(1 for r in w.recv_log if r[3])
@@ -134,3 +134,52 @@ def run(shard, rec):
             # roundings may legitimately differ by schedule? no: all randomness is seeded per run, but masks differ per seed -> compare only agreement within a run
             rec.count('fxp_programs_with_seed_dependent_rounding')
     rec.count('distinct_schedules', len(scheds))
+    # result lists belong to the caller: mutating a returned list (reverse, pop, item assignment) before the computation has finished must give
+    # the same outcome as mutating it afterwards (in the synchronous single-party mode it is always "afterwards"); also the run-time threshold switch
+    from vlib import progs as _progs
+    vals = [rng.randint(2, 9) for _ in range(4)]
+
+    async def alias_program(mpc, pid):
+        secint = mpc.SecInt(16)
+        xs = mpc.input([secint(v if pid == 0 else 0) for v in vals], senders=0)
+        y = mpc.schur_prod(xs, xs)
+        y.reverse()                              # the caller's own list
+        b = mpc.to_bits(xs[0], 4)
+        b.reverse()
+        last = b.pop()
+        z = mpc.vector_add(xs, xs)
+        z[0], z[1] = z[1], z[0]
+        s = mpc.sorted(xs)
+        del s[0]
+        return [await mpc.output(y), await mpc.output(b), await mpc.output(last), await mpc.output(z), await mpc.output(s)]
+    exp_alias = [[v * v for v in vals][::-1], [(vals[0] >> i) & 1 for i in range(4)][::-1][:-1], vals[0] & 1, [2 * vals[1], 2 * vals[0]] + [2 * v for v in vals[2:]], sorted(vals)[1:]]
+    sw_prog, sw_exp = _progs.threshold_switch_program(tuple(vals))
+    for name, prog, exp in (('result-list-mutation', alias_program, exp_alias), ('threshold-switch', sw_prog, sw_exp)):
+        for policy in sim.POLICIES:
+            sseed = rng.randrange(1 << 30)
+            case = [shard['name'], name, policy, sseed]
+            if not rec.wants(case):
+                continue
+            w = sim.World(m, t, no_prss, seed=sseed, policy=policy, history='auto').run(prog)
+            rec.count('runs')
+            rec.count('micro_runs')
+            feats = {'asymmetric_yield': False, 'deferred_bump': bool(w.deferred_bumps), 'micro': name}
+            problems = runner.judge_completion(w)
+            res = w.ok_results()
+            if res is not None:
+                for pid, r in enumerate(res):
+                    rr = [[float(x) if isinstance(x, float) else x for x in part] if isinstance(part, list) else part for part in r]
+                    if rr != exp and not (name == 'threshold-switch' and _close_nested(rr, exp)):
+                        problems.append(('wrong-output', f'party {pid} obtained {rr}, expected {exp}'))
+                        break
+            for mech, text in problems:
+                rec.violation(f'{shard["name"]} {name} values {vals} policy {policy}: {text}', dict(feats, mechanism=mech), {'values': vals, 'policy': policy, 'sched_seed': sseed}, case=case)
+            rec.case([shard['name'], name, w.sched_sig()], nontrivial=m >= 2)
+
+
+def _close_nested(a, b):
+    if isinstance(b, list):
+        return isinstance(a, list) and len(a) == len(b) and all(_close_nested(x, y) for x, y in zip(a, b))
+    if isinstance(b, float):
+        return abs(float(a) - b) <= 0.05
+    return a == b
